@@ -6,10 +6,12 @@ READY = True
 META = {
     "technique": "Lean 4 proof (simulation between the scope-tracking analysis of compiler/meta.rs and a reference "
                  "semantics of run-time name resolution: all templates incl. macros and call blocks called anywhere, "
-                 "all control flow, file sets) + the arms of meta.rs regenerated as a table that the Lean analysis "
-                 "provably interprets + recording-context oracle on 81 000 (quick) / 477 000 (thorough) generated "
-                 "templates and file sets + exact correspondence of the model analysis with the real report and "
-                 "containment of the recorded look-ups in the model semantics",
+                 "macro VALUES with shared closure objects that escape their scope, host callables, all control flow, "
+                 "file sets) + the arms of meta.rs and every closure site of the VM regenerated as tables that the Lean "
+                 "model provably interprets + recording-context oracle on 88 000 (quick) / 500 000 (thorough) generated "
+                 "templates and file sets + exact correspondence of the model analysis with the real report, "
+                 "containment of the recorded look-ups in the model semantics, and replay of the engine's closure "
+                 "operations (hook) on the Lean closure heap machine",
     "category": "proof",
     "text": "Kernel-checked, without exception (C18_full is a theorem): for every template (emit, for with filter/else/"
             "recursive/break/continue, if, with, set incl. tuple and ns.attr targets, set/filter blocks, autoescape, "
@@ -19,50 +21,59 @@ META = {
             "(nested to any depth), failing renders cut after any number of look-ups included, each context key the "
             "reference semantics asks for is in findUndeclared and is the root of a name in findUndeclaredNested "
             "(reads_subset_undeclared, reads_root_of_nested, abort_reads_prefix, nested_reported_are_paths, "
-            "analysis_no_panic).  NEW, moved from validated/argued to proved: (1) macro and call-block bodies run "
-            "where they are CALLED — reads_subset_undeclared_calls: while any statement runs (top level, loop body, "
-            "block, another macro's or the macro's own body, after the names it mentions were rebound) the choice "
-            "tree may call any macro / call block of the template, `caller` included, any number of times, nested "
-            "and recursive to any depth; a call runs in [closure frame = find_macro_closure \\ {caller} (+ caller "
-            "local), base frame] and macro_call_site_independent: what it asks does not depend on the call site "
-            "(before: body executions were accounted for at the declaration with an informal argument). "
-            "(2) Context::load as a function on structured frames (locals → loop → closure → context, globals "
-            "last): context_asked_iff_no_frame_resolves; the order of the checks, the frames eval_macro builds and "
-            "the code of compile_macro_expression/compile_macro/Context::enclose (Enclose per closure name, pins "
-            "undefined, BuildMacro before StoreLocal) are regenerated from the sources and proved equal to the "
-            "model's (closure_and_lookup_order_as_modelled).  (3) File sets — multi_file_sound: in ANY sequence of "
-            "activations of the files' units (top level / block bodies / macros), each entered with arbitrary "
-            "frames (whatever the including, importing, extending or parent template built), each include leaving "
-            "arbitrary names behind in the includer's frame, every look-up is in the report (both modes) of the "
-            "file whose code performed it (before: look-ups of other templates were oracle-only and the leak was a "
-            "comment).  (4) The transcription of meta.rs — analysis_arms_as_modelled: for every arm of track_walk "
-            "(19), tracker_visit_expr (15) and track_assign (5) the regenerated list of operations (children "
-            "visited and their order, push/pop positions, names assigned and when, cfg) equals the typed table of "
-            "MJ/Model/MetaArms.lean, and walkers_interpret_arms: the model's walk / nvars / targetAtoms ARE the "
-            "interpretation of those rows (before: hand transcription validated by the differential only); "
-            "Expr::Var, Expr::GetAttr and the 11 helper functions are pinned as control skeletons.  Unchanged: "
-            "macro_body_asks_nothing, expression_code_binds_nothing, builtins_do_not_read_context.  Tie: the real "
-            "AST of each generated case is run through the Lean model and must give exactly the sets "
-            "undeclared_variables(false) and (true) return; the model's closure analysis must equal the "
-            "Enclose/BuildMacro instructions of the compiled template; the keys and attribute paths a recording "
+            "analysis_no_panic; macros called anywhere: reads_subset_undeclared_calls, macro_call_site_independent; "
+            "Context::load on structured frames: context_asked_iff_no_frame_resolves; file sets: multi_file_sound; "
+            "transcription of meta.rs: analysis_arms_as_modelled, walkers_interpret_arms; "
+            "closure_and_lookup_order_as_modelled, macro_body_asks_nothing, expression_code_binds_nothing, "
+            "builtins_do_not_read_context).  NEW, moved from over-approximated/validated to proved: (1) macro VALUES "
+            "— closure_keys_never_lost: on the closure heap machine (State::closures as key sets, Frame::closure / "
+            "closure_context, Macro::closure; events push/pop frame, store with mirroring, declaration = Enclose per "
+            "closure name + GetClosure + BuildMacro, next_loop_item that clears the locals and DETACHES the closure, "
+            "take/reset around an include, macro calls in contexts of their own) after ANY history every macro value "
+            "built so far still finds every name its body captured in the closure object it points to, and longer "
+            "histories only add keys; clearing_in_place_loses_keys: the engine of the seeded change C18-7 (clear in "
+            "place) violates exactly this; escaped_macro_reads_subset_undeclared: while any statement runs the choice "
+            "tree may call any macro value that any history produced (parked in a namespace attribute, list, map, host "
+            "object, passed as an argument or as caller, exported by an import), in [closure frame = the keys its "
+            "closure object has at that moment, base frame], nested to any depth, and every context key asked is "
+            "reported in both modes (before: closure = exactly find_macro_closure's names, a static assumption).  "
+            "(2) closure_sites_as_modelled: every site of minijinja/src that creates, reads, fills, detaches or "
+            "shares a closure object or a closure field (26 rows regenerated from the sources) is a row of the "
+            "model's table assigned to a machine event; object operations are creation, insertion, reads only.  "
+            "(3) host callables and globals as explicit parameters — reads_subset_undeclared_hosts: with host "
+            "callables that ask State::lookup for the names `hosts` (invoked at any statement, any depth, seeing the "
+            "frames of that moment, calling template values back) every key asked is reported or one of those names; "
+            "reads_subset_undeclared_or_global: if those names are globals, reported or a global (the property's "
+            "exception clause).  Tie: the real AST of each generated case is run through the Lean model and must give "
+            "exactly the sets undeclared_variables(false) and (true) return; the model's closure analysis must equal "
+            "the Enclose/BuildMacro instructions of the compiled template; the keys and attribute paths a recording "
             "context sees during real renders (render, Expression::eval, render_captured + render_block + "
-            "call_macro; four undefined modes; named/from_str; custom syntax; child templates; file sets with "
-            "per-file attribution through the instruction hook) must be contained in the real report of the "
-            "file that asked (oracle) and in the union of the model semantics' look-ups over all choice trees.",
+            "call_macro; four undefined modes; named/from_str; custom delimiters and line statements; child "
+            "templates; file sets with per-file attribution through the instruction hook; the escape product: a "
+            "callable declared in one iteration / with / if / block / macro body / call block, parked by 10 routes, "
+            "called now / k iterations later / after the scope / inside other loops and macros / after an include) "
+            "must be contained in the real report of the file that asked (oracle; names a host callable asked "
+            "State::lookup for are logged and exempt) and in the union of the model semantics' look-ups over all "
+            "choice trees; the engine's closure operations of 16 000 renders (hook verif_hooks::closures) are "
+            "replayed on the Lean heap machine: closure attachments of all frames after every operation, the closure "
+            "id of every macro value and the keys of the closure object at every macro call must agree, and (oracle "
+            "closure-lost-key) at every call the closure object must still have every name Enclose put there.",
     "design_ref": "DESIGN.md §3 C18",
     "level_note": "Trusted: Lean kernel; the hand-written reference semantics of name resolution (MJ/Model/Meta.lean "
                   "exec: which frames codegen.rs/vm push where, evaluation order of right-hand sides) — validated by "
                   "containment of the recorded keys in the model's possible look-ups on every generated template and "
                   "file (templates with at most 3000 executions) and tied to the sources by the regenerated tables "
-                  "(binding instructions, context readers, load order, macro call frames, macro codegen); the table "
-                  "extractor lib/tables/c18.py; the views (field names of compiler/ast.rs → model AST) — validated by "
-                  "the exact analysis correspondence.  Over-approximations (sound): expression evaluation = look-up "
-                  "of every variable leaf; any macro of the template can be called at any statement (static table, "
-                  "values are not modelled); a file's units can be entered with ANY frames (no block-stack / include "
-                  "resolution in the model); macro closure = exactly find_macro_closure's names (the engine's shared "
-                  "closure object has at least those).  Not in any theorem (oracle only): debug-mode error reports "
-                  "(known finding debug-info:referenced-locals), host callables that read the context through "
-                  "State::lookup, globals (consulted after the context).",
+                  "(binding instructions, context readers, load order, macro call frames, macro codegen, closure "
+                  "sites); the closure heap machine (MJ/Model/MetaEsc.lean Heap.step) — validated by the replay of the "
+                  "engine's closure operations; the table extractor lib/tables/c18.py; the views (field names of "
+                  "compiler/ast.rs → model AST) — validated by the exact analysis correspondence.  "
+                  "Over-approximations (sound): expression evaluation = look-up of every variable leaf; any macro of "
+                  "the template and any macro value of any history can be called at any statement (which value an "
+                  "expression yields is not modelled; a history is not tied to what the template did before); a "
+                  "file's units can be entered with ANY frames (no block-stack / include resolution in the model).  "
+                  "Parameters, not assumptions: the names host callables ask State::lookup for (hosts), the globals.  "
+                  "Not in any theorem (oracle only): debug-mode error reports (known finding "
+                  "debug-info:referenced-locals).",
 }
 
 
@@ -130,8 +141,120 @@ def shape_fields(shape):
     return d
 
 
+HEAP_REQUIRED = True
+
+
+def heap_tokens(trace):
+    """engine trace (harness `heap_trace`) -> (driver tokens, expectations, macro calls)
+
+    expectations[i] = (kind, attachments or None, extra) for driver token i:
+      D: extra = closure id of the value built;  M: extra = keys of the closure object at the call
+    calls = [(decl identity, keys, enclosed names of that declaration or None)]"""
+    evs = []
+    for item in trace.split(" "):
+        if not item:
+            continue
+        tok, _, frames = item.partition("|")
+        evs.append((tok.split(":"), frames))
+    toks, exp, calls = [], [], []
+    next_id, pending_names, enclosed = 0, [], {}
+    i, n = 0, len(evs)
+    while i < n:
+        t, frames = evs[i]
+        k = t[0]
+        if k in ("P0", "P1", "O", "L"):
+            toks.append(k)
+            exp.append((k, frames, None))
+        elif k == "S":
+            toks.append("S:" + t[1])
+            exp.append(("S", frames, None))
+        elif k == "I":
+            toks.append("I")
+            exp.append(("I", None, None))
+        elif k == "T":
+            toks.append("T")
+            exp.append(("T", frames, None))
+        elif k == "R":
+            fresh = t[1] != "-" and int(t[1]) == next_id and i + 1 < n and evs[i + 1][0][0] == "E" \
+                and evs[i + 1][0][2] == t[1]
+            if not fresh:
+                toks.append("R")
+                exp.append(("R", frames, None))
+        elif k == "E":
+            if t[2] != "-" and int(t[2]) == next_id:
+                next_id += 1
+            pending_names.append(t[1])
+        elif k == "B":
+            toks.append("D:" + ",".join(pending_names))
+            exp.append(("D", frames, t[4]))
+            enclosed[(t[2], t[3])] = set(pending_names)
+            pending_names = []
+        elif k == "M":
+            keys = t[5] if len(t) > 5 else ""
+            if i + 1 < n and evs[i + 1][0][0] == "P0":
+                toks.append("M:%s:%s" % (t[3], t[4]))
+                exp.append(("M", evs[i + 1][1], keys))
+                calls.append(((t[1], t[2]), set(x for x in keys.split("+") if x), enclosed.get((t[1], t[2]))))
+                i += 1
+                if t[4] == "1" and i + 1 < n and evs[i + 1][0][:2] == ["S", "caller"]:
+                    i += 1
+            elif i + 1 < n and evs[i + 1][0][0] == "L":
+                i += 1  # the context of the call could not be built (recursion limit)
+        i += 1
+    return toks, exp, calls
+
+
+def heap_check(r, cnt, pending):
+    """replay the recorded closure operations on the closure heap machine of the Lean model and compare the
+    closure attachments of all frames after every operation, the closure id of every macro value and the keys
+    of the value's closure object at every macro call; oracle: at a call the closure object still has every
+    name `Enclose` put there for that declaration"""
+    if not pending:
+        return
+    lines = [" ".join(toks) for _, _, toks, _, _ in pending]
+    model = r.driver("drive_c18", "".join(x + "\n" for x in lines), args=["heap"])
+    if model is None or len(model) != len(lines):
+        r.broken.append("heap driver output does not line up with the recorded traces")
+        return
+    for (h, src, toks, exp, calls), mline in zip(pending, model):
+        cnt["heap_traces"] += 1
+        cnt["heap_events"] += len(toks)
+        for decl, keys, names in calls:
+            cnt["heap_calls"] += 1
+            if names is not None:
+                r.hist["closure_heap"]["macro call: closure object has every enclosed name"] += 1
+                lost = names - keys
+                if lost:
+                    r.oracle_failure(h, f"a macro value was called whose closure object has lost {sorted(lost)} (enclosed at "
+                                        f"its declaration, keys now {sorted(keys)}) while rendering {src!r}", "closure-lost-key")
+        outs = mline.split(" ") if mline else []
+        if len(outs) != len(toks):
+            r.model_disagreement(h, f"{len(toks)} closure operations recorded for {src!r}", f"heap machine answered {len(outs)}")
+            continue
+        for i, (tok, (kind, frames, extra), o) in enumerate(zip(toks, exp, outs)):
+            msnap, _, mextra = o.partition("/")
+            bad = None
+            if o.startswith("?"):
+                bad = o
+            elif frames is not None and msnap != frames:
+                bad = f"attachments {msnap}"
+            elif kind == "D" and mextra != extra:
+                bad = f"closure of the value {mextra}"
+            elif kind == "M" and mextra != extra:
+                bad = f"keys of the closure object {mextra}"
+            if bad:
+                r.model_disagreement(h, f"closure operation #{i} `{tok}` of {src!r}: the engine has attachments {frames}"
+                                        + (f", value closure {extra}" if kind == "D" else "")
+                                        + (f", closure keys {extra}" if kind == "M" else ""),
+                                     "closure heap machine: " + bad + " (operations so far: " + " ".join(toks[:i + 1][-12:]) + ")")
+                break
+        else:
+            r.hist["closure_heap"]["trace replayed, every operation agrees"] += 1
+
+
 def process_chunk(r, cases, cnt, scope_matrix):
     cnt["seen"] += len(cases)
+    cnt["heap_pending"] = []
     # model input: one line per single-file template, one line per file of a file set
     model_in = []
     for h, d in cases:
@@ -230,7 +353,24 @@ def process_chunk(r, cases, cnt, scope_matrix):
         r.hist["parse"]["ok"] += 1
         shape = d.get("shape") or ""
         special = shape.startswith("special|")
-        if special:
+        escape = shape.startswith("esc|")
+        if escape:
+            # escape product (c18_esc.inc): a callable that outlives the scope that declared it
+            sp = shape.split("|")
+            r.hist["subject"]["escape template"] += 1
+            for dim, val in zip(("esc_scope", "esc_kind", "esc_reads", "esc_route", "esc_time"), sp[1:6]):
+                r.hist[dim][val] += 1
+            if d.get("compile") == "ok" and d.get("analysis") == "ok":
+                cnt["esc"] += 1
+                ran = d.get("marks", 0)
+                cnt["esc_ran"] += 1 if ran else 0
+                r.hist["esc_callable_ran"]["in all 4 renders" if ran >= 4 else
+                                           ("in some renders" if ran else "in no render (not reachable by that route)")] += 1
+            else:
+                r.broken.append(f"escape template does not compile: {src!r}")
+            shape = ""
+            special = True
+        elif special:
             sp = shape.split("|")
             r.hist["subject"]["special-name " + ("expression" if src.startswith("#expr# ") else "template")] += 1
             r.hist["special_name"][sp[1]] += 1
@@ -251,6 +391,10 @@ def process_chunk(r, cases, cnt, scope_matrix):
                 r.oracle_failure(h, f"compile/analysis panicked on {src!r}", "analysis-panic")
             continue
         und, nested, glob = set(d["und"]), set(d["nested"]), set(d["globals"]) | set(d.get("foreign", []))
+        # explicit parameter of the property: what host callables ask State::lookup for (logged by `peek`)
+        host = set(d.get("host", []))
+        if host:
+            r.hist["host_callable"]["templates in which a host callable asked State::lookup"] += 1
         for part in d.get("cfg", "?").split("/"):
             r.hist["config"][part] += 1
         allreads = set().union(*[set(x) for x in d["reads"]]) if d["reads"] else set()
@@ -333,6 +477,9 @@ def process_chunk(r, cases, cnt, scope_matrix):
                 if k in glob:
                     r.hist["oracle"]["global"] += 1
                     continue
+                if k in host and k not in und:
+                    r.hist["oracle"]["asked by a host callable (explicit parameter)"] += 1
+                    continue
                 if k not in und:
                     site = "unreported-read"
                     r.oracle_failure(h, f"render (context {ci}) asked the context for `{k}` but "
@@ -343,6 +490,12 @@ def process_chunk(r, cases, cnt, scope_matrix):
                     site = "unreported-read-nested"
                     r.oracle_failure(h, f"render (context {ci}) asked the context for `{k}` but no name of "
                                         f"undeclared_variables(true) = {sorted(nested)} starts with it, for {src!r}", site)
+        # ---- closure heap: the engine's closure operations replayed on the Lean machine
+        for tr in d.get("heap", []):
+            if tr:
+                toks, exp, calls = heap_tokens(tr)
+                if toks:
+                    cnt["heap_pending"].append((h, src, toks, exp, calls))
         # ---- oracle, debug mode (separate stream): error reports look the mentioned names up
         if "debug_reads" in d:
             toks = d["ast"].split()
@@ -383,7 +536,7 @@ def process_chunk(r, cases, cnt, scope_matrix):
                 cnt["sem"] += 1
                 r.hist["semantics_tie"]["checked"] += 1
                 may = set(m["may"].split())
-                extra = allreads - may - set(d.get("foreign", [])) - {k for k in allreads if k.startswith("<")}
+                extra = allreads - may - set(d.get("foreign", [])) - host - {k for k in allreads if k.startswith("<")}
                 if extra:
                     r.model_disagreement(h, "render asked the context for " + " ".join(sorted(extra)) + " in " + repr(src),
                                          "no execution of the model semantics looks these up (may=" + " ".join(sorted(may)) + ")")
@@ -391,6 +544,8 @@ def process_chunk(r, cases, cnt, scope_matrix):
                 if not may <= set(m["und"].split()):
                     r.broken.append(f"model look-ups {sorted(may)} not within findUndeclared for {src!r} "
                                     "(contradicts the proved theorem: driver/model mismatch)")
+
+    heap_check(r, cnt, cnt.pop("heap_pending"))
 
 
 def run(r):
@@ -404,7 +559,9 @@ def run(r):
               "(the report is a flat set: a second unbound read would hide a wrong scope) + a hash-selected 12 000 of "
               "the other 311 880, thorough: all 360 576; (c') 9 special names (loop self caller super varargs kwargs "
               "namespace range x) × 33 expression forms × (Expression API + 5 statement positions × 10 surroundings); "
-              "(d) 1 344 file sets "
+              "(c'') the escape product of harness/src/bin/c18_esc.inc: 22 declaring scopes × 4 kinds of "
+              "callable × 6 read profiles × 10 escape routes × 6 call times (26 220; quick: the macro/ns-attribute "
+              "slice + 5 000 hash-selected); (d) 2 100 file sets "
               "(main × included × imported × parent template).  Each template is rendered with 4 recording contexts "
               "(all truthy+non-empty / mixed kinds / sparse+falsy / all empty+falsy) plus render_captured + "
               "render_block + call_macro; a case = one template or one file set, non-trivial when it parsed, is "
@@ -413,18 +570,20 @@ def run(r):
         "expression-level control flow only skips look-ups (the model looks every variable leaf up); that expression "
         "code cannot bind names is tied to codegen.rs/vm/mod.rs by the regenerated instruction tables",
         "requests (loop re-entries, self.name(), macro calls) are served with the frames of the start of their statement",
-        "the engine's closure object has at least the entries find_macro_closure computes (Enclose per name, "
-        "Context::enclose pins undefined too: regenerated table C18_MACRO_CODEGEN)",
+        "the closure heap machine has the engine's operations on closure objects and closure fields (every site "
+        "regenerated: C18_CLOSURE_SITES; Enclose per name, Context::enclose pins undefined too: C18_MACRO_CODEGEN; "
+        "validated by the replay of the engine's closure operations on the machine); that a closure object then "
+        "has at least the entries find_macro_closure computes is a theorem (closure_keys_never_lost)",
     ]
     status = r.regen_tables(["C18_EXPR_FUNCTIONS", "C18_EXPR_CALLEES", "C18_EXPR_INSTRUCTIONS", "C18_BINDING_INSTRUCTIONS",
-                             "C18_CONTEXT_READERS", "C18_BUILTIN_FILES"] + ARM_TABLES + LIST_TABLES)
+                             "C18_CONTEXT_READERS", "C18_BUILTIN_FILES", "C18_CLOSURE_SITES"] + ARM_TABLES + LIST_TABLES)
     proved = r.lean_prove("MJ.Props.C18", "MJ/Audit/C18.lean", extra_targets=["drive_c18"])
     point_at_arms(r, status)
     exe = r.cargo_build("c18")
     if exe is None:
         return
     rc, out, err = r.harness(exe, ["count", r.tier])
-    mt = re.search(r"sequence=(\d+) systematic-product=(\d+) sparse=(\d+)", out or "")
+    mt = re.search(r"sequence=(\d+) systematic-product=(\d+) sparse=(\d+) escape-product=(\d+)", out or "")
     if rc != 0 or not mt:
         r.broken.append(f"harness c18 count exited {rc}: {err[-300:]}")
         return
@@ -432,7 +591,9 @@ def run(r):
     r.extra["sequence_length"] = total
     r.extra["systematic_product"] = int(mt.group(2))
     r.extra["systematic_sparse"] = int(mt.group(3))
-    st = {"tie": 0, "sem": 0, "skip": 0, "closure": 0, "sets": 0, "set_files": 0, "seen": 0}
+    r.extra["escape_product"] = int(mt.group(4))
+    st = {"tie": 0, "sem": 0, "skip": 0, "closure": 0, "sets": 0, "set_files": 0, "seen": 0, "esc": 0, "esc_ran": 0,
+          "heap_traces": 0, "heap_events": 0, "heap_calls": 0}
     # systematic stream: per construct / wrapper / observer / probe pattern, how often `x` is
     # [not reported & never asked, reported & asked in all 4 contexts, asked in some only, asked in none]
     scope_matrix = {"construct": {}, "wrapper": {}, "observer": {}, "probes": {}}
@@ -472,6 +633,18 @@ def run(r):
     r.log("branch dependence: " + "; ".join(f"{k}: {v}" for k, v in r.hist["branch_dependence"].most_common()))
     if r.tier == "quick" and r.hist["subject"]["systematic template"] < 40000:
         r.broken.append(f"only {r.hist['subject']['systematic template']} systematic templates were generated (wanted >= 40000)")
+    r.extra["closure_heap_traces_replayed"] = st["heap_traces"]
+    r.extra["closure_heap_operations_compared"] = st["heap_events"]
+    r.extra["closure_heap_macro_calls_checked"] = st["heap_calls"]
+    if HEAP_REQUIRED and st["heap_traces"] < 5000:
+        r.broken.append(f"only {st['heap_traces']} closure-operation traces were replayed on the heap machine (wanted >= 5000)")
+    r.extra["escape_templates_checked"] = st["esc"]
+    r.extra["escape_templates_callable_ran"] = st["esc_ran"]
+    if st["esc"] < 5000:
+        r.broken.append(f"only {st['esc']} templates of the escape product were rendered (wanted >= 5000)")
+    elif st["esc_ran"] * 100 < st["esc"] * 85:
+        r.broken.append(f"the escaped callable ran in only {st['esc_ran']} of {st['esc']} escape templates "
+                        "(the generator no longer reaches the calls)")
     if sets_checked < 1000:
         r.broken.append(f"only {sets_checked} file sets were rendered")
 
